@@ -1,9 +1,136 @@
-(* C18 -- property theorems only. *)
-From Coq Require Import List NArith ZArith Bool.
+(* C18 -- property theorems only.  [s] ranges over every state of a
+   TopologicalSorter (any sequence of add/remove calls, any constructor
+   arguments); tweens and derivers are stated over the models of
+   Tweens.__call__ and _apply_view_derivers. *)
+From Coq Require Import List NArith ZArith Bool Permutation.
 Import ListNotations.
-Require Import Verif.Lib.Wire Verif.Gen.Facts_C18 Verif.Model.C18 Verif.Proofs.C18.
+Require Import Verif.Lib.Wire Verif.Gen.Facts_C18 Verif.Model.C18.
+Require Import Verif.Proofs.C18_kahn Verif.Proofs.C18_build Verif.Proofs.C18.
 
+(* the emission loop never runs out of fuel and never looks up a deleted node *)
+Theorem C18_sorted_total : forall s, sorted s <> Internal.
+Proof. exact sorted_never_internal. Qed.
+Print Assumptions C18_sorted_total.
+
+(* every currently declared name exactly once, with its current value *)
+Theorem C18_sorted_perm : forall s l,
+  sorted s = Sorted l -> NoDup (names s) ->
+  Permutation (map fst l) (names s) /\ (forall n v, In (n, v) l -> v = val_of s n).
+Proof. exact sorted_perm_state. Qed.
+Print Assumptions C18_sorted_perm.
+
+(* every constraint arc with both ends present is honoured: in the order of all
+   nodes (FIRST/LAST or INGRESS/MAIN/VIEW included, first before last) and hence
+   among the returned names *)
+Theorem C18_sorted_respects : forall s l,
+  sorted s = Sorted l ->
+  exists full,
+    NoDup full /\ (forall n, In n full <-> In n (all_names s)) /\
+    map fst l = filter (fun n => mem_text n (names s)) full /\
+    (forall a b, In (a, b) (all_order s) -> In a (all_names s) -> In b (all_names s) ->
+                 precedes full a b = true) /\
+    (forall a b, In (a, b) (order s) -> In a (names s) -> In b (names s) ->
+                 precedes (map fst l) a b = true).
+Proof. exact sorted_respects_state. Qed.
+Print Assumptions C18_sorted_respects.
+
+(* the result is a function of the sequence of calls (trivial for a Gallina function) *)
 Theorem C18_sorted_deterministic : forall c ops1 ops2,
   ops1 = ops2 -> run_ops (new_sorter c) ops1 = run_ops (new_sorter c) ops2.
 Proof. exact sorted_deterministic. Qed.
 Print Assumptions C18_sorted_deterministic.
+
+(* cycle_iff_error, direction <=: a cycle among the present constraints is never ordered ... *)
+Theorem C18_cycle_never_ordered : forall s l, sorted s = Sorted l -> forall a, ~ path (parcs s) a a.
+Proof. exact sorted_acyclic_state. Qed.
+Print Assumptions C18_cycle_never_ordered.
+
+(* ... it is reported as CyclicDependencyError unless an unsatisfied dependency is reported first *)
+Theorem C18_cycle_is_error : forall s,
+  miss_before s = [] -> miss_after s = [] -> (exists a, path (parcs s) a a) ->
+  exists l, sorted s = Cyclic l.
+Proof. exact cyclic_error_state. Qed.
+Print Assumptions C18_cycle_is_error.
+
+(* direction =>, certificate form: the reported dictionary is a non-empty set of
+   nodes each having a predecessor inside the set along a present constraint
+   (the pigeonhole step "hence a cycle exists" is TODO (unproved)) *)
+Theorem C18_cycle_error_certificate : forall s l,
+  sorted s = Cyclic l ->
+  l <> [] /\ forall k, In k (map fst l) -> exists a, In (a, k) (parcs s) /\ In a (map fst l).
+Proof. exact cyclic_certificate_state. Qed.
+Print Assumptions C18_cycle_error_certificate.
+
+(* unsatisfied_iff_error on the repaired tree: an error is raised iff some name in
+   req_before (req_after) has no present alternative among ITS OWN constraints *)
+Theorem C18_unsatisfied_iff_error : forall s,
+  ((exists l, sorted s = UnsatBefore l) <-> miss_before s <> []) /\
+  ((exists l, sorted s = UnsatAfter l) <-> miss_before s = [] /\ miss_after s <> []) /\
+  (forall l, sorted s = UnsatBefore l -> l = miss_before s) /\
+  (forall l, sorted s = UnsatAfter l -> l = miss_after s).
+Proof. exact unsat_error_state. Qed.
+Print Assumptions C18_unsatisfied_iff_error.
+
+Theorem C18_unsatisfied_own_constraints : forall s n,
+  (In n (miss_before s) <->
+     In n (req_before s) /\
+     ~ exists alts, In (n, alts) (name2before s) /\ exists a, In a alts /\ In a (all_names s)) /\
+  (In n (miss_after s) <->
+     In n (req_after s) /\
+     ~ exists alts, In (n, alts) (name2after s) /\ exists a, In a alts /\ In a (all_names s)).
+Proof.
+  intros s n. unfold miss_before, miss_after. rewrite !In_missing, !In_has_dep. split; reflexivity.
+Qed.
+Print Assumptions C18_unsatisfied_own_constraints.
+
+(* tweens: entered in list order, left in reverse; an explicit list replaces the implicit order *)
+Theorem C18_tweens_nesting : forall t h,
+  tweens_call t Base = inr h ->
+  exists use,
+    (tw_explicit t <> [] -> use = tw_explicit t) /\
+    (tw_explicit t = [] -> implicit t = Sorted use) /\
+    h = wrap_right use Base /\
+    trace h = map (fun nf => Enter (fst nf)) use ++ [Call] ++ map (fun nf => Exit (fst nf)) (rev use).
+Proof. exact tweens_nesting. Qed.
+Print Assumptions C18_tweens_nesting.
+
+Theorem C18_tweens_error : forall t e,
+  tweens_call t Base = inl e -> tw_explicit t = [] /\ implicit t = e /\ forall l, e <> Sorted l.
+Proof. exact tweens_error. Qed.
+Print Assumptions C18_tweens_error.
+
+(* derivers: attr_wrapped_view, predicated_view, then the sorted derivers, outermost first; the view innermost *)
+Theorem C18_derivers_nesting : forall s h,
+  apply_view_derivers s Base = inr h ->
+  exists ds, sorted s = Sorted ds /\
+    let all := map (fun n => (n, 0%N)) dv_outer ++ ds in
+    h = wrap_right all Base /\
+    trace h = map (fun nf => Enter (fst nf)) all ++ [Call] ++ map (fun nf => Exit (fst nf)) (rev all).
+Proof. exact derivers_nesting. Qed.
+Print Assumptions C18_derivers_nesting.
+
+(* the default pipeline (regenerated declarations): secured_view first, rendered_view and mapped_view innermost *)
+Theorem C18_default_derivers_order :
+  exists mid, sorted default_derivers =
+              Sorted (map (fun n => (n, 0%N)) (t_secured_view :: mid ++ [t_rendered_view; t_mapped_view])).
+Proof. exact default_derivers_order. Qed.
+Print Assumptions C18_default_derivers_order.
+
+Theorem C18_default_derivers_secured_first :
+  exists rest, default_deriver_order = t_secured_view :: rest /\ ~ In t_secured_view rest.
+Proof. exact default_derivers_secured_first. Qed.
+Print Assumptions C18_default_derivers_secured_first.
+
+(* over operation sequences: the names of the state are exactly the current
+   declarations (a re-added name replaces the earlier one), without duplicates *)
+Theorem C18_names_of_ops : forall c ops,
+  names (final_state (new_sorter c) ops) = dnames (decls_of c ops) /\
+  NoDup (names (final_state (new_sorter c) ops)).
+Proof. exact names_of_ops. Qed.
+Print Assumptions C18_names_of_ops.
+
+Theorem C18_sorted_perm_ops : forall c ops l,
+  sorted (final_state (new_sorter c) ops) = Sorted l ->
+  Permutation (map fst l) (dnames (decls_of c ops)) /\ NoDup (map fst l).
+Proof. exact sorted_perm_ops. Qed.
+Print Assumptions C18_sorted_perm_ops.
